@@ -2429,11 +2429,9 @@ impl<'a> Socket<'a> {
     /// <https://elixir.bootlin.com/linux/v6.9.9/source/net/ipv4/tcp.c#L1472>.
     fn window_to_update(&self) -> bool {
         match self.state {
-            State::SynSent
-            | State::SynReceived
-            | State::Established
-            | State::FinWait1
-            | State::FinWait2 => {
+            // No window updates before the connection is synchronized: all we could
+            // send is another SYN, whose window field is not scaled anyway.
+            State::Established | State::FinWait1 | State::FinWait2 => {
                 let new_win = self.scaled_window();
                 if let Some(last_win) = self.last_scaled_window() {
                     new_win > 0 && new_win / 2 >= last_win
@@ -2807,7 +2805,14 @@ impl<'a> Socket<'a> {
             .remote_last_seq
             .max(repr.seq_number + repr.segment_len());
         self.remote_last_ack = repr.ack_number;
-        self.remote_last_win = repr.window_len;
+        // `remote_last_win` is kept in scaled units, but the window field of a SYN segment
+        // is never scaled; convert it, or the right edge of the window we believe to have
+        // advertised ends up beyond what we did advertise (and beyond the receive buffer).
+        self.remote_last_win = if repr.control == TcpControl::Syn {
+            repr.window_len >> self.remote_win_shift
+        } else {
+            repr.window_len
+        };
 
         if repr.segment_len() > 0 {
             self.rtte
